@@ -141,7 +141,7 @@ theorem C19_deep_distance_positive_nested_dicts (cfg : DCfg) (hp : Diff.Plain cf
   obtain ⟨h1, _⟩ := payloadLen_of_cats (diffV cfg al hashOf [] a b).tree a b hcats
   rw [J_deepDiff hp al hashOf a b ja jb] at hne
   unfold deepDistance
-  rw [J_deepDiff hp al hashOf a b ja jb, h1]
+  rw [J_diffUnmerged hp al hashOf a b ja jb, h1]
   exact J_deep_pos hp al hashOf (sizeOf a) a b (Nat.le_refl _) ja jb pa pb hne
 
 /-- the positivity domain is inhabited by values of depth two -/
@@ -166,7 +166,7 @@ theorem C19_N_deep_distance_exceeds_one (cfg : DCfg) (hp : Diff.Plain cfg) (al :
   obtain ⟨h1, _⟩ := payloadLen_of_cats (diffV cfg al hashOf [] (.int 1) (.str "")).tree (.int 1) (.str "") hcats
   have hne : Int.repr 1 ≠ "" := by decide
   unfold deepDistance
-  rw [J_deepDiff hp al hashOf _ _ ja jb, h1, diffV_basic cfg al hashOf [] _ _ rfl]
+  rw [J_diffUnmerged hp al hashOf _ _ ja jb, h1, diffV_basic cfg al hashOf [] _ _ rfl]
   simp [treeLen, catMap, tcF, sidePath, typeName, castTo, pyEq, sumBy, changeLen, optLen, itemLen, roughLen, hne]
 
 /-- a leaf that `_get_item_length` does not count (`None`, an empty container, a value under a key with a leading underscore)
